@@ -57,6 +57,7 @@ type Ctx struct {
 	Forward        func(sig, what string, replay interface{})
 	ForwardAdd     func(key string, n int)
 	ForwardHarness func(msg string)
+	ForwardCap     func(what string)
 }
 
 // Dummy returns a context that swallows reports (used when a path is re-built only
@@ -108,6 +109,9 @@ func (c *Ctx) Expired(what string) bool {
 }
 
 func (c *Ctx) Cap(what string) {
+	if c.ForwardCap != nil {
+		c.ForwardCap(what)
+	}
 	c.mu.Lock()
 	defer c.mu.Unlock()
 	for _, x := range c.capsHit {
